@@ -276,5 +276,28 @@ def run(P, R):
     ok = len(pf) == 1 and ('command.identifier in invalidated_identifiers', True) in {tuple(f) for f in fm.at(pf[0])}
     R.check(r6, ok, 'host lost: starting failure strategy applied', 'giveup|invalidation', u.loc(),
             'on_instances_invalidation does not call process_failure for the commands of the lost instances')
+    # ---------------------------------------------------------------- R7
+    r7 = R.rule('R7', 'gate facts', 'restart_sequence (a second automatic distribution) is refused while ANY instance '
+                'still has start or stop jobs in progress (Supvisors-wide starting/stopping identifiers, not the local '
+                'flags), so that a lower sequence still starting elsewhere is not overtaken', 1)
+    u = P.unit('RPCInterface.restart_sequence')
+    fm = factmap(u)
+    rs = [c for c in own_nodes(u.node) if isinstance(c, ast.Call) and call_text(c) == 'self._raise' and c.args
+          and 'BAD_SUPVISORS_STATE' in ast.unparse(c.args[0])]
+    sa_ = [c for c in own_nodes(u.node) if isinstance(c, ast.Call) and call_text(c) == 'self.supvisors.starter.start_applications']
+    ok = len(rs) == 1 and len(sa_) == 1 and rs[0].lineno < sa_[0].lineno and \
+        {tuple(f) for f in fm.at(rs[0])} == {('self.supvisors.state_modes.starting_identifiers or '
+                                              'self.supvisors.state_modes.stopping_identifiers', True)}
+    R.check(r7, ok, 'jobs in progress on any instance forbid a new distribution', 'restart_sequence|busy', u.loc(),
+            'restart_sequence does not raise BAD_SUPVISORS_STATE under `state_modes.starting_identifiers or '
+            'state_modes.stopping_identifiers` (found under %s)' % [sorted(tuple(f) for f in fm.at(c)) for c in rs])
+    for nm, fld in (('starting_identifiers', 'starting_jobs'), ('stopping_identifiers', 'stopping_jobs')):
+        pu = P.unit('SupvisorsStateModes.' + nm)
+        rr = [v for v, f, n in returns(pu) if v is not None]
+        ok = len(rr) == 1 and isinstance(rr[0], ast.ListComp) and \
+            ast.unparse(rr[0].generators[0].iter) == 'self.instance_state_modes.items()' and \
+            [ast.unparse(i) for i in rr[0].generators[0].ifs] == ['state_modes.%s' % fld]
+        R.check(r7, ok, '%s lists every instance whose %s flag is set' % (nm, fld), 'restart_sequence|%s' % nm, pu.loc(),
+                'SupvisorsStateModes.%s does not list the instances of instance_state_modes having %s' % (nm, fld))
     R.assume('The order of requests relative to the TRUE process states over all timings, and wait_exit semantics '
              'end-to-end, are NOT decided.')
